@@ -477,11 +477,49 @@ int main(int argc, char **argv)
 				die("open txns", -errno);
 			rf.stop_at_sep = 1;
 			while (!rf.eof) {
-				/* first line of each txn: "T <update index>" must match next_update_index */
+				/* "T <update index>": one transaction through reftable_stack_add;
+				   "M <n>": one addition of n tables (each "T <ui>" + records + "---")
+				   through new_addition / addition_add / addition_commit.
+				   The update index must match what the stack / the addition expects. */
 				char hdr[64];
 				uint64_t ui;
+				int ntab = 0;
 				if (!fgets(hdr, sizeof(hdr), rf.f))
 					break;
+				if (sscanf(hdr, "M %d", &ntab) == 1) {
+					struct reftable_addition *add = NULL;
+					int k;
+					err = reftable_stack_new_addition(&add, st);
+					if (err < 0) {
+						printf("ERROR new_addition: %d %s\n", err, reftable_error_str(err));
+						return 3;
+					}
+					for (k = 0; k < ntab; k++) {
+						if (!fgets(hdr, sizeof(hdr), rf.f) || sscanf(hdr, "T %" SCNu64, &ui) != 1) {
+							printf("ERROR bad transaction file\n");
+							return 3;
+						}
+						if (k == 0 && ui != reftable_stack_next_update_index(st)) {
+							printf("ERROR update index: harness expects %" PRIu64 ", stack says %" PRIu64 "\n", ui, reftable_stack_next_update_index(st));
+							return 3;
+						}
+						rf.min = rf.max = ui;
+						rf.set_limits = 1;
+						err = reftable_addition_add(add, write_records, &rf);
+						if (err < 0) {
+							printf("ERROR addition_add: %d %s\n", err, reftable_error_str(err));
+							return 3;
+						}
+					}
+					err = reftable_addition_commit(add);
+					if (err < 0) {
+						printf("ERROR addition_commit: %d %s\n", err, reftable_error_str(err));
+						return 3;
+					}
+					reftable_addition_destroy(add);
+					printf("ADDED-MULTI %d\n", ntab);
+					continue;
+				}
 				if (sscanf(hdr, "T %" SCNu64, &ui) != 1)
 					break;
 				if (ui != reftable_stack_next_update_index(st)) {
@@ -497,11 +535,34 @@ int main(int argc, char **argv)
 				}
 				printf("ADDED %" PRIu64 "\n", ui);
 			}
-			if (argc > 4 && !strcmp(argv[argc - 1], "compactall")) {
-				err = reftable_stack_compact_all(st, NULL);
-				if (err < 0) {
-					printf("ERROR compact_all: %d %s\n", err, reftable_error_str(err));
-					return 3;
+			{
+				/* trailing words: compactall | expire=<time>,<min update index> (a compact_all
+				   with that expiry) | clean */
+				int a;
+				for (a = 4; a < argc; a++) {
+					if (!strcmp(argv[a], "compactall")) {
+						err = reftable_stack_compact_all(st, NULL);
+						if (err < 0) {
+							printf("ERROR compact_all: %d %s\n", err, reftable_error_str(err));
+							return 3;
+						}
+					} else if (!strncmp(argv[a], "expire=", 7)) {
+						struct reftable_log_expiry_config ec = { 0 };
+						char *comma = strchr(argv[a], ',');
+						ec.time = strtoull(argv[a] + 7, NULL, 10);
+						ec.min_update_index = comma ? strtoull(comma + 1, NULL, 10) : 0;
+						err = reftable_stack_compact_all(st, &ec);
+						if (err < 0) {
+							printf("ERROR compact_all(expiry): %d %s\n", err, reftable_error_str(err));
+							return 3;
+						}
+					} else if (!strcmp(argv[a], "clean")) {
+						err = reftable_stack_clean(st);
+						if (err < 0) {
+							printf("ERROR clean: %d %s\n", err, reftable_error_str(err));
+							return 3;
+						}
+					}
 				}
 			}
 			fclose(rf.f);
